@@ -1,13 +1,4 @@
-import IQE.Props.C01
 import IQE.Props.C01Pipeline
-#print axioms IQE.Props.C01.C01_bagEq_iff_perm
-#print axioms IQE.Props.C01.C01_bagEq_equivalence
-#print axioms IQE.Props.C01.C01_acceptable_bag
-#print axioms IQE.Props.C01.C01_acceptable_refl
-#print axioms IQE.Props.C01.C01_acceptable_perm_invariant
-#print axioms IQE.Props.C01.C01_error_or_right
-#print axioms IQE.Props.C01.C01_acceptable_refl_limit
-
 #print axioms IQE.Props.C01.C01_pipeline_run_unordered
 #print axioms IQE.Props.C01.C01_pipeline_refines_spec_bag
 #print axioms IQE.Props.C01.C01_pipeline_error_or_right_bag
